@@ -592,7 +592,7 @@ func F64ToInt(a *Term) *Term { return P.mk("f2i", "", SInt, []*Term{a}, nil) }
 
 func Select(arr, idx *Term) *Term {
 	vs := arrElem(arr.Sort)
-	if idx.Sort == SPtr && idx.Op == "ite" && iteDepth(idx) <= 4 {
+	if idx.Sort == SPtr && idx.Op == "ite" && iteDepth(idx) <= 16 {
 		return Ite(idx.Args[0], Select(arr, idx.Args[1]), Select(arr, idx.Args[2]))
 	}
 	for {
